@@ -22,6 +22,7 @@ LNext ==
      \/ IsComplete(e)
      \/ GetOutput(e)
      \/ Finalize(e)
+     \/ Drop(e)
      \/ Undefined(e)
 
 LSpec == Init /\ [][LNext]_vars
